@@ -70,7 +70,8 @@ def gen_config(rng, tier):
         for _ in range(nops):
             k = rng.below(100)
             if k < 40:
-                ops.append("N" + rng.pick(PATTERNS))
+                # one notify in five is issued from inside a callback of a second, unrelated router (op X)
+                ops.append(("X" if rng.chance(1, 5) else "N") + rng.pick(PATTERNS))
             elif k < 65:
                 ops.append("S" + rng.pick(KEYS))
                 nsub += 1
@@ -86,7 +87,7 @@ def gen_config(rng, tier):
     return init + "|" + ",".join(threads)
 
 
-DFS_CONFIGS = ["a/b|Na/*,Sa/c", "a/b|Na/*:Na/b,Sa/c:U0", "a/b;a/c|Na/*,Ka/*,Sa/b", "-|Sa/b:U0,Na/b:Na/b",
+DFS_CONFIGS = ["a/b|Na/*,Sa/c", "a/b|Na/*:Na/b,Sa/c:U0", "a/b;a/c|Xa/*,Sa/c:U0,Ka/*", "a/b;a/c|Na/*,Ka/*,Sa/b", "-|Sa/b:U0,Na/b:Na/b",
                "a/b|Na/*,Sa/b:Sa/c", "-|Sa/b:Sa/c:U0:U1,Na/*:Na/*", "a/b|Na/*,Sa/c,Na/*,Sa/b,Na/*"]
 
 
